@@ -150,6 +150,10 @@ func (b *BinaryExpression) SQL() string {
 
 	// Handle IS NULL / IS NOT NULL (right side is NULL literal)
 	if upperOp == "IS NULL" || upperOp == "IS NOT NULL" {
+		if b.Not && upperOp == "IS NULL" {
+			// the parser stores IS NOT NULL as "IS NULL" with Not set
+			return fmt.Sprintf("%s IS NOT NULL", left)
+		}
 		return fmt.Sprintf("%s %s", left, upperOp)
 	}
 
